@@ -43,6 +43,13 @@ def main():
         if os.environ.get("V"):
             for o in r["obligations"]:
                 print("      ", o["verdict"], o["id"], o["desc"][:90])
+        if r["qualname"] in SC.VACUOUS:
+            n += 1
+            okv = r.get("exits") == "unsat"
+            if not okv:
+                unsound.append("%s/vacuity-guard" % r["qualname"])
+            print("%-10s %-10s exits must be reported unreachable: %s" % ("ok" if okv else "UNSOUND", r["qualname"], r.get("exits")))
+            continue
         SC_X = [c for c in SC.XNAMES.get(r["qualname"], [])]
         for sub in SC_X:
             obs = [o for o in r["obligations"] if sub in o["id"] or sub in o["desc"]]
